@@ -100,8 +100,11 @@ def rules_raise(run):
     objp, kindp, stepp = ps[1], ps[2], ps[3]
     table = None
     for n in q.walk(F):
-        if isinstance(n, ast.Subscript) and isinstance(strip_cast(n.value), ast.Dict) and q.unparse(n.slice) == kindp:
-            table = strip_cast(n.value)
+        if isinstance(n, ast.Subscript) and q.unparse(n.slice) == kindp:
+            for v, st_ in q.alternatives(F, n.value):
+                if isinstance(v, ast.Dict):
+                    table = v
+                    table_sub = n
     run.anchor(table is not None, r, 'kind -> exception class table indexed by cond_type')
     got = {q.const_str(k): dotted(v) for k, v in zip(table.keys, table.values)}
     for k in KINDS:
@@ -112,7 +115,7 @@ def rules_raise(run):
     # klass variable
     kv = None
     for st, v in [(st, v) for n in q.walk(F) if isinstance(n, ast.Assign) for st, v in [(n, n.value)]]:
-        if any(x is table for x in ast.walk(v)) and isinstance(st.targets[0], ast.Name):
+        if any(x is table_sub for x in ast.walk(v)) and isinstance(st.targets[0], ast.Name):
             kv = st.targets[0].id
     run.anchor(kv, r, 'variable holding the selected exception class')
     # dynamic dispatch on the same kind
@@ -160,10 +163,11 @@ def rules_raise(run):
                 s = q.unparse(seq) if seq is not None else ''
                 run.check(s in ("getattr(%s, '%s', [])" % (op, k), '%s.%s' % (op, k)), r4, m.short, 'reads %s.%s' % (op, k), 'reads %s' % s, rt)
                 pred = v.args[0] if isinstance(v, ast.Call) and v.args else None
-                if isinstance(pred, ast.Lambda):
-                    body = pred.body
+                pf = q.predicate_function(run, M, pred) if pred is not None else None
+                if pf is not None:
+                    pparam, body = pf
                     good = isinstance(body, ast.UnaryOp) and isinstance(body.op, ast.Not) and isinstance(body.operand, ast.Call) \
-                        and q.unparse(body.operand.func) == 'self._evaluate_code' and q.unparse(body.operand.args[0]) == pred.args.args[0].arg
+                        and q.unparse(body.operand.func) == 'self._evaluate_code' and q.unparse(body.operand.args[0]) == pparam
                     run.check(good, r4, m.short, 'keeps exactly the conditions evaluating false', 'predicate is %s' % q.unparse(body)[:60], rt)
                 elif isinstance(v, ast.GeneratorExp):
                     good = len(v.generators[0].ifs) == 1 and 'not self._evaluate_code(' in q.unparse(v.generators[0].ifs[0])
